@@ -11,6 +11,7 @@ import numpy as np
 import z3
 
 from symx import Engine, as_sa, install, gf2
+from symx.arrays import SA
 from symx.core import z3_xor, z3_and, z3_or, bool_term, Bit
 from symx import harness as hz
 from checks import common
@@ -189,6 +190,42 @@ def worker(cfg, tier='quick'):
     def wit2(m):
         g = lambda bs: [1 if z3.is_true(m.eval(b, model_completion=True)) else 0 for b in bs]
         return dict(error=g(eb), error2=g(e2b), alpha=g(ab))
+    # other accepted representations of the residual error: a dense single row (1, 2n) and a batch (2, 2n)
+    # (the three branches of get_effective_error); flat-vector semantics must carry over row by row
+    f_spec = [xor_sel(e2b, sw(l)) for l in LZ] + [xor_sel(e2b, sw(l)) for l in LX]
+    eng3 = Engine(name=cfg + '#repr')
+    with eng3:
+        e1 = as_sa([Bit(b) for b in eb])
+        e2 = as_sa([Bit(b) for b in e2b])
+
+        def fn3():
+            row = e1.reshape(1, 2 * n)
+            batch = np.empty((2, 2 * n), dtype=object)
+            batch[0, :] = [Bit(b) for b in eb]
+            batch[1, :] = [Bit(b) for b in e2b]
+            batch = batch.view(SA)
+            return code.logical_errors(row), code.logical_errors(batch)
+        p3 = eng3.explore(fn3)
+    col.absorb(eng3)
+    alts_row, alts_batch = [], []
+    for p in p3:
+        if p.exc is not None:
+            r_, m_, dt_ = col.solve(p.pc)
+            col.record('C04/logical_errors/representations/no-exception', r_, dt_, True,
+                       wit2(m_) if m_ is not None else None, f'{type(p.exc).__name__}: {p.exc}')
+            continue
+        lrow, lbatch = p.value
+        alts_row.append(z3_and(p.pc + [z3.BoolVal(np.shape(lrow) != (2 * k,)) if np.shape(lrow) != (2 * k,)
+                                       else cells_differ(lrow, leff_spec)]))
+        if np.shape(lbatch) != (2, 2 * k):
+            alts_batch.append(z3_and(p.pc))
+        else:
+            lb = np.asarray(lbatch)
+            alts_batch.append(z3_and(p.pc + [z3_or([cells_differ(lb[0], leff_spec), cells_differ(lb[1], f_spec)])]))
+    col.prove('C04/logical_errors/single-row-2d-error-gives-the-same-bits', [], z3_or(alts_row), wit2,
+              'error passed as a dense (1, 2n) array: result has shape (2k,) and the bits of the flat-vector form')
+    col.prove('C04/logical_errors/batch-of-errors-row-by-row', [], z3_or(alts_batch), wit2,
+              'error passed as a (2, 2n) batch [e; e\']: row i of the result is the logical effect of row i')
     col.prove('C04/logical_errors/linear', [], z3_or(alts_lin), wit2, 'f(e+e\') = f(e)+f(e\')')
     col.prove('C04/logical_errors/constant-on-stabilizer-cosets', [], z3_or(alts_cos), wit2,
               'f(e + alpha.H) = f(e) for symbolic alpha')
@@ -220,6 +257,20 @@ def replay(path):
             bad = bool(code.is_success(e)) != gf2.in_rowspace(Hr, ev, 2 * n)
         elif 'is_logical_error' in oid:
             bad = bool(code.is_logical_error(e)) != any(leff)
+        elif 'single-row' in oid:
+            got = np.asarray(code.logical_errors(e.reshape(1, -1)))
+            print('logical_errors of the (1, 2n) form', got.tolist(), 'flat form spec', leff)
+            bad = got.shape != (len(leff),) or list(map(int, got)) != leff
+        elif 'batch-of-errors' in oid:
+            e2 = np.array(w['error2'], dtype=np.uint8)
+            ev2 = sum(1 << i for i, b in enumerate(w['error2']) if b)
+            leff2 = [gf2.parity(sw(l) & ev2) for l in LZ] + [gf2.parity(sw(l) & ev2) for l in LX]
+            got = np.asarray(code.logical_errors(np.array([e, e2])))
+            bad = got.shape != (2, len(leff)) or got.astype(int).tolist() != [leff, leff2]
+        elif 'representations/no-exception' in oid:
+            code.logical_errors(e.reshape(1, -1))
+            code.logical_errors(np.array([e, np.array(w['error2'], dtype=np.uint8)]))
+            bad = False
         elif 'bits-flag' in oid:
             bad = list(map(int, code.logical_errors(e))) != leff
         elif 'linear' in oid:
